@@ -192,7 +192,8 @@ def run_contract(reg, c, args: dict, universe=None):
     call_args = [live[p] for p in params if p in live]
     try:
         result = fn(*call_args)
-        if inspect.isgenerator(result):
+        is_gen = inspect.isgenerator(result)
+        if is_gen:
             result = list(result)
     except Exception as ex:
         names = [k.__name__ for k in type(ex).__mro__]
@@ -207,6 +208,7 @@ def run_contract(reg, c, args: dict, universe=None):
     e1 = dict(env)
     e1.update(entry)
     e1['result'] = result
+    e1['__yield__'] = result if (c.yields is not None or isinstance(result, list)) else []
     if c.then_call is not None:
         try:
             e1['result2'] = result(*[live[g] for g in c.then_call])
@@ -225,7 +227,8 @@ def run_contract(reg, c, args: dict, universe=None):
         except ReqNotMet:
             raise
         except Exception as ex:
-            return {'ok': False, 'stage': f'post#{j}', 'detail': f'evaluating `{t}` raised {type(ex).__name__}: {ex}', 'result': repr(result)}
+            # a harness problem, not a property violation
+            raise RuntimeError(f'evaluating `{t}` natively raised {type(ex).__name__}: {ex}')
         if not ok:
             return {'ok': False, 'stage': f'post#{j}', 'detail': f'`{t}` is false', 'result': repr(result)[:500]}
     # frame
